@@ -12,9 +12,9 @@ import logging
 import contextlib
 
 from pybufrkit.errors import PyBufrKitError
-from pybufrkit.coder import Coder, CoderState
+from pybufrkit.coder import Coder, CoderState, BSRModifier
 from pybufrkit.tables import TableGroupKey, TableGroupCacheManager
-from pybufrkit.descriptors import Descriptor
+from pybufrkit.descriptors import Descriptor, AssociatedDescriptor, SkippedLocalDescriptor
 
 __all__ = ['loads_compiled_template', 'TemplateCompiler', 'CompiledTemplateManager', 'process_compiled_template']
 
@@ -84,6 +84,11 @@ class MethodCall(Statement):
         if len(self.args) > 0 and isinstance(self.args[0], Descriptor):
             d['args'] = (self.args[0].id,) + self.args[1:]
             d['with_descriptor'] = True
+            # Associated fields and skipped local descriptors are not table
+            # entries, they cannot be looked up by ID when loading
+            if isinstance(self.args[0], (AssociatedDescriptor, SkippedLocalDescriptor)):
+                d['descriptor_type'] = self.args[0].__class__.__name__
+                d['descriptor_nbits'] = self.args[0].nbits
         else:
             d['args'] = self.args
             d['with_descriptor'] = False
@@ -464,14 +469,25 @@ def load_state_method_call_from_dict(table_group, d):
 
 def load_method_call_from_dict(method_type, table_group, d):
     if d.get('with_descriptor', False):
-        descriptor = table_group.lookup(d['args'][0])
+        descriptor_type = d.get('descriptor_type')
+        if descriptor_type == 'AssociatedDescriptor':
+            descriptor = AssociatedDescriptor(d['args'][0], d['descriptor_nbits'])
+        elif descriptor_type == 'SkippedLocalDescriptor':
+            descriptor = SkippedLocalDescriptor(d['args'][0], d['descriptor_nbits'])
+        else:
+            descriptor = table_group.lookup(d['args'][0])
         args = tuple([descriptor] + d['args'][1:])
     else:
         args = tuple(d['args'])
 
+    state_properties = d.get('state_properties')
+    if state_properties is not None and 'bsr_modifier' in state_properties:
+        # JSON turns the named tuple into a plain list
+        state_properties = dict(state_properties, bsr_modifier=BSRModifier(*state_properties['bsr_modifier']))
+
     return method_type(method_name=d['method_name'],
                        args=args,
-                       state_properties=d.get('state_properties'))
+                       state_properties=state_properties)
 
 
 STATEMENT_LOAD_FUNCS = {
